@@ -162,6 +162,9 @@ static inline void vf_progress(void)
  * logical progress. ctx names the scenario for the violation key. idle_ok_ms is
  * a period of legitimate inactivity (e.g. waiting for a timer deadline). */
 void vf_watch_begin(const char *ctx, unsigned idle_ok_ms);
+/* same with a shorter (or longer) run of consecutive idle samples than the default 20 (= 10 s): for workloads in which nothing
+ * legitimately sleeps, so that a stall the library repairs by itself after a few seconds (idle-worker time-out) is still seen */
+void vf_watch_begin_n(const char *ctx, unsigned idle_ok_ms, int samples);
 void vf_watch_end(void);
 /* Poll-wait until *ctr >= target, with the watchdog armed. */
 void vf_wait_counter_impl(_Atomic uint64_t *ctr, uint64_t target, const char *ctx);
